@@ -27,6 +27,7 @@ for p, b in sorted(F.bodies.items()):
     except Exception as ex:
         continue
     fam = subst.family(F.doc, p)
+    bodies[p] = fam                                           # every baseline body is kept (callees removed by a later inlining refactor)
     if subst.lossy(s):
         n_lossy += 1
         forms[p] = {"form": None, "raw": subst.raw_hash(fam)}      # only the 'unchanged' test is available
